@@ -303,6 +303,20 @@ func init() {
 		d := a[0].(*Term)
 		p.sleepLog = append(p.sleepLog, d)
 		pos := p.tt.Cmp(OpSlt, p.i64(0), d)
+		if p.timedSleep && len(p.threads) > 1 {
+			// discrete-event virtual clock: the sleeper wakes at exactly now+d, when it is the earliest sleeper
+			// and nothing else can run; time passes only in the scheduler
+			if !p.branch(pos) {
+				return nil
+			}
+			me := p.cur
+			me.wakeAt = p.tt.Bin(OpAdd, p.clock, d)
+			me.sleeping = true
+			for me.sleeping {
+				p.block(sleepTok, "time.Sleep")
+			}
+			return nil
+		}
 		p.clock = p.tt.Ite(pos, p.tt.Bin(OpAdd, p.clock, d), p.clock)
 		if p.sleepHook != nil {
 			p.sleepHook()
@@ -441,6 +455,30 @@ func init() {
 			p.fatal("logrus." + n)
 		}
 		return p.zeroResults(fn), true
+	}
+
+	// ---- time.Time.Add on virtual-clock instants ----
+	// Times made by the engine's time.Now carry the monotonic reading in ext and a frozen wall part. Adding a
+	// symbolic duration through the real code would drag d/1e9 and d%1e9 into branch conditions (wall part),
+	// which only matter for calendar output. Here only the monotonic part advances; the wall part stays frozen
+	// (stated stub: virtual clock = monotonic clock).
+	pkgIntrinsics["time"] = func(p *Path, c *frame, fn *ssa.Function, a []value) (value, bool) {
+		if fn.String() != "(time.Time).Add" {
+			return nil, false
+		}
+		t, ok := a[0].(structure)
+		if !ok || len(t) != 3 {
+			return nil, false
+		}
+		wall, ok := t[0].(*Term)
+		d, ok2 := a[1].(*Term)
+		if !ok || !ok2 || !wall.isConst() || wall.val&(1<<63) == 0 || d.isConst() {
+			return nil, false
+		}
+		ext := t[1].(*Term)
+		te := p.tt.Bin(OpAdd, ext, d)
+		// saturate instead of degrading to wall-only on overflow (unreachable within the harness bounds)
+		return structure{wall, te, t[2]}, true
 	}
 
 	// ---- math on concrete floats ----
